@@ -57,13 +57,24 @@ const std::string & root()
 {
   State & s = S();
   if (s.real_root.empty()) {
-    s.real_root = build_dir() + "/tmp/simfs-" + std::to_string((long)getpid());
+    // fixed-length name: the path ends up in library strings and exception texts, and the NUMBER of
+    // allocations those make must not depend on how many digits the pid has (allocations are schedule points)
+    char pidbuf[16]; std::snprintf(pidbuf, sizeof pidbuf, "%08ld", (long)getpid());
+    s.real_root = build_dir() + "/tmp/simfs-" + pidbuf;
     std::string cmd = "mkdir -p '" + s.real_root + "'";
     int r = system(cmd.c_str()); (void)r;
   }
   return s.real_root;
 }
 #endif
+
+void cleanup_process()
+{
+#ifndef SIM_HAVE_FS_SEAM
+  State & s = S();
+  if (!s.real_root.empty()) { std::string cmd = "rm -rf '" + s.real_root + "'"; int r = system(cmd.c_str()); (void)r; }
+#endif
+}
 
 static bool is_sim_path(const char * p) { return p && std::strncmp(p, "/simfs/", 7) == 0; }
 
